@@ -155,6 +155,7 @@ type ByteEnv struct {
 
 	cur   map[types.Object]int64 // values of tracked locals on the current path (booleans as 0/1)
 	unt   map[types.Object]bool
+	only  map[types.Object]bool // when set, only these variables are tracked
 	depth int
 }
 
@@ -481,6 +482,9 @@ func (env *ByteEnv) step(x *V, store map[types.Object]int64, v int, unt map[type
 	var out map[types.Object]int64
 	set := func(obj types.Object, n int64, known bool) {
 		if obj == nil || obj == env.Var || unt[obj] {
+			return
+		}
+		if env.only != nil && !env.only[obj] {
 			return
 		}
 		if _, isVar := obj.(*types.Var); !isVar {
@@ -869,21 +873,10 @@ func (g *Graph) ReachFromTracked(from *V, startAt bool, avoid *Avoid) map[*V]boo
 	if g.Fn != nil {
 		env.Prog = g.Fn.Prog
 	}
-	var skip *ast.FuncLit
-	var body ast.Node = g.Body
-	if g.Fn != nil && g.Fn.Decl != nil && g.Fn.Decl.Body != nil {
-		if g.Body != g.Fn.Decl.Body {
-			ast.Inspect(g.Fn.Decl.Body, func(n ast.Node) bool {
-				if l, ok := n.(*ast.FuncLit); ok && l.Body == g.Body {
-					skip = l
-				}
-				return true
-			})
-		}
-		body = g.Fn.Decl.Body
-	}
-	unt := untracked(env.Info, body, skip)
+	unt := g.untrackedVars()
 	env.unt = unt
+	g.usesFlags()
+	env.only = g.flagVars
 	defer func() { env.unt = nil; env.cur = nil }()
 	type item struct {
 		x     *V
@@ -969,4 +962,25 @@ func (g *Graph) MustPassBeforeTracked(from *V, targets []*V, via []*V) bool {
 		}
 	}
 	return true
+}
+
+// untrackedVars caches untracked() for the graph's function.
+func (g *Graph) untrackedVars() map[types.Object]bool {
+	g.untOnce.Do(func() {
+		var skip *ast.FuncLit
+		var body ast.Node = g.Body
+		if g.Fn != nil && g.Fn.Decl != nil && g.Fn.Decl.Body != nil {
+			if g.Body != g.Fn.Decl.Body {
+				ast.Inspect(g.Fn.Decl.Body, func(n ast.Node) bool {
+					if l, ok := n.(*ast.FuncLit); ok && l.Body == g.Body {
+						skip = l
+					}
+					return true
+				})
+			}
+			body = g.Fn.Decl.Body
+		}
+		g.unt = untracked(g.Info, body, skip)
+	})
+	return g.unt
 }
